@@ -131,6 +131,10 @@ class PWalker(Walker):
                         if self.kinds[i] == 'elem')
                 if self.backref:
                     return min(len(self.backref), (1 << w) - 2)
+                if P == 0:
+                    # a bitmap with nothing to refer to (zero-length bitmap) is degenerate: FM-94 gives it
+                    # no meaning and the interpreted / compiled paths of the library treat it differently
+                    raise Unsupported('bitmap operator without preceding element descriptors')
                 return self.policy.bitmap_length(self, w, P)
             if body and (body[0] // 1000 == 33 and self.qa or
                          body[0] % 1000 == 255 and body[0] // 100000 == 2):
